@@ -1,6 +1,6 @@
 import TenpyModel.Util.J
 import TenpyModel.Core.Codec
-import TenpyModel.Core.ArrDot
+import TenpyModel.Core.ArrChecked
 /-! JSON codec for the tensor model (drivers only) and the Gaussian-integer scalar type used for exact
 comparison with complex dtypes. -/
 namespace TenpyModel.Core
